@@ -371,6 +371,36 @@ E('str(wrap)', lambda s: str(etl.wrap(s)), kind='scalar', group='vis')
 E('_repr_html_', lambda s: etl.wrap(s)._repr_html_(), kind='scalar', group='vis')
 
 
+class MethodForm(object):
+    """stands in for the `petl` module inside the builders: every function that also exists as a Table method is called in its
+    method form on a wrapped first argument (etl.wrap(t).cut(...) instead of etl.cut(t, ...)); everything else is passed through"""
+
+    def __getattr__(self, name):
+        import inspect
+        import petl
+        from petl.util.base import Table
+        f = getattr(petl, name)
+        target = getattr(f, '__wrapped__', f)
+        if inspect.isfunction(target) and hasattr(Table, name):
+            def call(t, *a, **k):
+                return getattr(petl.wrap(t), name)(*a, **k)
+            return call
+        return f
+
+
+class method_form(object):
+    """context manager: the catalogue builders use the method form while it is active"""
+
+    def __enter__(self):
+        global etl
+        self.saved = etl
+        etl = MethodForm()
+
+    def __exit__(self, *a):
+        global etl
+        etl = self.saved
+
+
 def views():
     return [e for e in ENTRIES.values() if e.kind == 'view']
 
